@@ -102,6 +102,19 @@ class DynamicSGEDecider(SynthesisDecider):
             )
 
 
+class GenotypeBackedSource(RandomSource):
+    """Random source for the metahandlers used while mapping: reads genes through the decider."""
+
+    def __init__(self, decider: DynamicSGEDecider):
+        self.decider = decider
+
+    def randint(self, min: int, max: int) -> int:
+        return self.decider.read(int) % (max - min + 1) + min
+
+    def random_float(self, min: float, max: float) -> float:
+        return (self.decider.read(float) % (MAX_GENE_VALUE + 1)) / (MAX_GENE_VALUE + 1) * (max - min) + min
+
+
 class DynamicStructuredGrammaticalEvolutionRepresentation(
     Representation[Genotype, TreeNode],
     RepresentationWithMutation[Genotype],
@@ -129,7 +142,7 @@ class DynamicStructuredGrammaticalEvolutionRepresentation(
 
     def genotype_to_phenotype(self, genotype: Genotype) -> TreeNode:
         decider = DynamicSGEDecider(genotype, self.grammar, self.max_depth)
-        return random_tree(genotype.random, self.grammar, decider)
+        return random_tree(GenotypeBackedSource(decider), self.grammar, decider)
 
     def mutate(self, random: RandomSource, genotype: Genotype, **kwargs) -> Genotype:
         dna = {key: list(genes) for key, genes in genotype.dna.items()}
